@@ -51,6 +51,10 @@ class PathCtx(object):
         self.path_no = path_no
         self.solver = z3.Solver()
         self.solver.set('timeout', FEAS_TIMEOUT_MS[0])
+        # the linear hypotheses only: a cheap first pass for the feasibility checks (unsat with a
+        # subset of the hypotheses is unsat with all of them)
+        self.lin = z3.Solver()
+        self.lin.set('timeout', 150)
         self.inputs = {}        # name -> z3 const (declared symbolic inputs)
         self.notes = []
         self.n_feas_checks = 0
@@ -77,6 +81,8 @@ class PathCtx(object):
             return
         self.facts.append(f)
         self.solver.add(f)
+        if _is_linear(f):
+            self.lin.add(f)
 
     def assume(self, f):
         if isinstance(f, bool):
@@ -85,6 +91,8 @@ class PathCtx(object):
             return
         self.assumes.append(f)
         self.solver.add(f)
+        if _is_linear(f):
+            self.lin.add(f)
 
     def hyps(self):
         return list(self.assumes) + list(self.facts) + list(self.pc)
@@ -92,6 +100,13 @@ class PathCtx(object):
     # ---- branching
     def _feasible(self, cond):
         self.n_feas_checks += 1
+        if _is_linear(cond):
+            self.lin.push()
+            self.lin.add(cond)
+            r = self.lin.check()
+            self.lin.pop()
+            if r == z3.unsat:
+                return False
         self.solver.push()
         self.solver.add(cond)
         r = self.solver.check()
@@ -130,6 +145,8 @@ class PathCtx(object):
         lit = cond if choice else z3.Not(cond)
         self.pc.append(lit)
         self.solver.add(lit)
+        if _is_linear(lit):
+            self.lin.add(lit)
         return choice
 
     def known(self, cond):
@@ -169,6 +186,33 @@ class PathCtx(object):
             return
         self.obligations.append(Obligation(name, self.hyps(), goal, self.path_no, meta, kind,
                                            light=list(self.assumes) + list(self.pc)))
+
+
+_LIN_MEMO = {}
+
+
+def _is_linear(t, _depth=0):
+    """no product of two non-numerals, no division by a non-numeral, no power (syntactic)"""
+    i = t.get_id()
+    r = _LIN_MEMO.get(i)
+    if r is not None and r[0].eq(t):
+        return r[1]
+    k = t.decl().kind() if z3.is_app(t) else None
+    ch = t.children() if z3.is_app(t) else []
+    ok = True
+    if z3.is_quantifier(t):
+        ok = False
+    elif k == z3.Z3_OP_MUL:
+        nonnum = [c for c in ch if not (z3.is_rational_value(c) or z3.is_int_value(c))]
+        ok = len(nonnum) <= 1
+    elif k in (z3.Z3_OP_DIV, z3.Z3_OP_IDIV, z3.Z3_OP_MOD, z3.Z3_OP_REM):
+        ok = z3.is_rational_value(ch[1]) or z3.is_int_value(ch[1])
+    elif k == z3.Z3_OP_POWER:
+        ok = False
+    if ok:
+        ok = all(_is_linear(c) for c in ch)
+    _LIN_MEMO[i] = (t, ok)
+    return ok
 
 
 def _ring_decides(cond):
